@@ -49,10 +49,10 @@ def run(ctx, kspec):
         cmd = [os.path.join(VERIF, "bin/gosym"), "-dir", REPO, "-pkg", ".", "-overlay", ov, "-run", k["harness"], "-labels", k["labels"],
                "-strings", "theory", "-strmax", str(strmax), "-splitmax", str(b.get("splitmax", k.get("splitmax", 4))), "-init",
                "-out", res_path, "-workers", str(k.get("workers", 8)), "-timeout", str(timeout_ms), "-unwind", str(k.get("unwind", 6))]
-        if k.get("solver"):
-            cmd += ["-solver", k["solver"]]
-        if ctx.tier == "thorough" and k.get("solver2", "z3-new"):
-            cmd += ["-solver2", k.get("solver2", "z3-new")]
+        # z3 5.1.0 decides the bit-vector string kernels in seconds where 4.8.12 times out (measured)
+        cmd += ["-solver", k.get("solver", "z3-new")]
+        if ctx.tier == "thorough" and k.get("solver2", "z3"):
+            cmd += ["-solver2", k.get("solver2", "z3")]
         p = sh(cmd, check=False, timeout=7200)
         if p.returncode != 0:
             out.append({"program": "K:" + k["harness"], "error": "gosym failed: " + (p.stderr.decode() + p.stdout.decode())[-2500:]})
